@@ -226,7 +226,7 @@ PROPS = {
     "C11": {
         "families": [("timeouts", 1200, 30000), ("faults", 200, 6000)],
         "monitors": ["C11"],
-        "theorems": ["C11_abandon_only_past_limit", "C11_abandoned_exactly_at_the_limit"],
+        "theorems": ["C11_abandon_only_past_limit", "C11_abandoned_exactly_at_the_limit", "C11_giving_up_on_a_call_changes_nothing_at_the_actor"],
         "nontrivial": nt_c11,
         "rule": "cases generated from (family, VERIF_SEED, index): timeouts 2..40 (even), handler sleeps odd so that no handler needs exactly t, further messages queued behind slow ones, fail_on_timeout in {false,true}, both mailbox kinds; non-trivial = an actor with a configured timeout ran a handler that slept or was abandoned; distinct = distinct case JSON",
         "assumptions": ["virtual clock of the harness executor; durations exactly equal to the timeout (a genuine select! tie) are not generated"],
@@ -284,7 +284,7 @@ PROPS = {
     "C02": {
         "families": [("mailbox", 700, 20000), ("faults", 500, 12000), ("stop-race", 300, 8000), ("timeouts", 300, 8000), ("owning", 200, 6000)],
         "monitors": ["C04", "C03"],
-        "theorems": ["C02_call_returns_its_slot", "C02_response_only_from_own_handler", "C02_handler_answers_own_message", "C02_response_written_once", "C02_waiting_call_is_queued_or_running", "C02_dead_target_resolves", "C02_nothing_hangs_on_a_dead_actor"],
+        "theorems": ["C02_call_returns_its_slot", "C02_response_only_from_own_handler", "C02_handler_answers_own_message", "C02_response_written_once", "C02_waiting_call_is_queued_or_running", "C02_dead_target_resolves", "C02_nothing_hangs_on_a_dead_actor", "C02_pending_until_returned_or_given_up"],
         "nontrivial": nt_c02,
         "rule": "cases generated from (family, VERIF_SEED, index): concurrent calls, pings, sends, halts, joins and awaits from 1-4 client tasks through Addr, OwningAddr, Caller, WeakCaller; every termination cause (stop, last drop, failed start, handler panic, fatal timeout, task cancellation) at random positions relative to the pending operations; non-trivial = calls of two different client tasks were answered, or an operation was pending when its target's task ended; distinct = distinct case JSON",
         "assumptions": ["the response of the script actor's handlers is the actor's whole log at completion, so two different invocations never produce equal responses by accident",
